@@ -3,11 +3,14 @@
 # 1. confirms the mutant in a scratch worktree (suite green with patch; demo fails with, passes without)
 # 2. runs the given checks (quick) against that worktree (VX_REPO), then removes it.
 set -u
-M=$1; shift
+M=$(cd "$1" && pwd); shift
 W=$(mktemp -d /tmp/mutcheck.XXXX)
 git -C /repo worktree add --detach "$W" HEAD -f >/dev/null 2>&1
 cd "$W"
-dir=${DEMO_DIR:-}; [ -z "$dir" ] && dir=$(grep -oE '(pkg/[a-z/]+|cmd)/?' "$M/demo_test.go" | head -1); dir=${dir%/}
+dir=${DEMO_DIR:-}
+[ -z "$dir" ] && dir=$(head -3 "$M/demo_test.go" | grep -oE 'place in: *[A-Za-z0-9_/.-]+' | head -1 | sed 's/place in: *//')
+[ -z "$dir" ] && grep -q '^package main' "$M/demo_test.go" && dir=cmd
+[ -z "$dir" ] && dir=$(grep -oE '(pkg/[a-z/]+|cmd)/?' "$M/demo_test.go" | head -1); dir=${dir%/}
 if [ -z "$dir" ]; then dir=$(python3 -c "import json;print(json.load(open('$M/meta.json')).get('demo_dir',''))"); fi
 echo "demo dir: $dir"
 export GOFLAGS=-mod=mod GOPROXY=off
